@@ -102,6 +102,7 @@ type c20reader struct {
 	frames  [][]byte
 	ciIdx   map[*gopacket.CaptureInfo]int
 	empty   int
+	sameText int
 	cis     []*gopacket.CaptureInfo
 	unknown []error
 	cancelledAtCall int32
@@ -201,7 +202,14 @@ func c20run(run *vlab.Run, sc c20script) {
 			rd.ciIdx[rd.cis[i]] = i
 			pr.procErr[i] = c20procError(i)
 		case c20U:
-			rd.unknown[i] = fmt.Errorf("scripted unknown read error #%d", i)
+			// one error object per failed read; in every other script all of them carry the same text
+			// (a socket that keeps failing the same way, e.g. ENETDOWN while the link is down)
+			if n%2 == 0 {
+				rd.unknown[i] = errors.New("recvfrom: network is down")
+				rd.sameText++
+			} else {
+				rd.unknown[i] = fmt.Errorf("scripted unknown read error #%d", i)
+			}
 		}
 	}
 	desc := func() string {
@@ -361,6 +369,7 @@ func c20run(run *vlab.Run, sc c20script) {
 	run.Count("reads", int64(calls))
 	run.Count("frames_processed", int64(len(pr.seen)))
 	run.Count("empty_frames_scripted", int64(rd.empty))
+	run.Count("unknown_errors_with_identical_text", int64(rd.sameText))
 	run.Count("errors_reported", int64(len(got)))
 	if sc.cancelAt >= 0 {
 		run.Count("cancellations", 1)
